@@ -125,13 +125,19 @@ def random_heap(r):
 
 
 def schedule_oracle(case, impl, model):
+    """every schedule prints what the run without collection prints (record entries up to order: a Rust
+    HashMap iterates in a per-instance random order) and ends the same way"""
     ans = [C.RunAns(x) for x in impl]
     base = ans[0]
+    tpl = C.RunAns(model[0]).out
     probs = []
     for k, a in enumerate(ans[1:], 1):
         if a.kind in ("abort", "panic"):
             probs.append(f"schedule {case.info['schedules'][k]}: {a.raw[:120]}")
-        elif a.out != base.out or a.status[:3] != base.status[:3]:
+            continue
+        same_out = a.out == base.out or (tpl is not None and a.out is not None and base.out is not None
+                                         and C.match_template(tpl, a.out) and C.match_template(tpl, base.out))
+        if not same_out or a.status[:3] != base.status[:3]:
             probs.append(f"schedule {case.info['schedules'][k]}: output/status {a.out!r} {a.status[:3]} differs from the run with no collection {base.out!r} {base.status[:3]}")
     return probs[:2]
 
@@ -160,6 +166,37 @@ def alloc_program(r):
     prog.append(("loop", body))
     prog.append(("print", G.var("রাখা")))
     prog.append(("print", G.call("_লিস্ট-লেন", G.idx(G.var("নথি"), G.s("তালিকা")))))
+    return prog
+
+
+def temporaries_program(r):
+    """fresh, not yet stored containers are alive while a callee that allocates past the collection
+    threshold runs: collections may happen only at top-level statement boundaries, never in between"""
+    n = r.choice([150, 260, 400])
+    heavy = ("func", "ভারী", ["n"], [("decl", "i", G.num(0)),
+                                      ("loop", [("if", [(G.bin_(">=", G.var("i"), G.var("n")), [("break",)])], None),
+                                                ("assign", "i", [], G.bin_("+", G.var("i"), G.num(1))),
+                                                ("decl", "t", G.lst(G.var("i"), G.var("i"), G.lst(G.var("i")), G.rec((G.s("k"), G.var("i")))))]),
+                                      ("return", G.var("n"))])
+    call = G.call("ভারী", G.num(n))
+    fresh = lambda: r.choice([G.lst(G.s("ক"), G.s("খ")), G.rec((G.s("নাম"), G.s("পাখি"))), G.lst(G.lst(G.num(1)), G.num(2)), G.call("_স্ট্রিং-স্প্লিট", G.s("গ,ঘ"), G.s(","))])
+    prog = [heavy, ("func", "দুই", ["a", "b"], [("return", G.lst(G.var("a"), G.var("b")))])]
+    for k in range(r.range(2, 5)):
+        shape = r.below(6)
+        name = "ফল" + G.bn_digits(str(k))
+        if shape == 0:
+            prog.append(("decl", name, G.lst(fresh(), fresh(), call)))
+        elif shape == 1:
+            prog.append(("decl", name, G.rec((G.s("আগে"), fresh()), (G.s("সংখ্যা"), call), (G.s("পরে"), fresh()))))
+        elif shape == 2:
+            prog.append(("decl", name, G.bin_("+", G.lst(fresh()), G.lst(call))))
+        elif shape == 3:
+            prog.append(("decl", name, G.call("দুই", fresh(), call)))
+        elif shape == 4:
+            prog.append(("decl", name, G.lst(G.lst(fresh(), G.lst(fresh(), call)))))
+        else:
+            prog.append(("decl", name, G.call("দুই", G.call("দুই", fresh(), fresh()), G.bin_("+", call, G.num(1)))))
+        prog.append(("print", G.var(name)))
     return prog
 
 
@@ -200,4 +237,13 @@ def cases(rng, tier, stats):
         out.append(C.Case("gc-schedules", lines, cmp_run(), schedule_oracle, info={"src": src, "schedules": scheds}))
     stats["programs"] = n
     stats["schedules_per_program"] = 5
+    # natively triggered collections while unstored temporaries are alive inside an expression
+    m = 400 if tier == "thorough" else 40
+    for i in range(m):
+        r = rng.fork(f"t{i}")
+        src = G.source(temporaries_program(r), "lines")
+        scheds = ["never", "native", "always"]
+        lines = [run_req(src, gc=sc, steps=4000000, fuel=4000000) for sc in scheds]
+        out.append(C.Case("gc-temporaries", lines, cmp_run(), schedule_oracle, info={"src": src, "schedules": scheds}))
+    stats["temporaries_programs"] = m
     return out
